@@ -3,7 +3,8 @@ import Rtsp.Proofs.Codec.H265Dec
 Property theorems for the decoder of pkg/format/rtph265 and for `format.H265.PTSEqualsDTS`
 (model: `Model/Codec/H265.lean`).
 
-  C08  c08_inv_init, c08_inv_decode, c08_inv_run, c08_retained_le, c08_out_le, c08_out_nonempty,
+  C08  c08_inv_init, c08_inv_decode, c08_inv_run, c08_retained_le, c08_fragment_count_le, c08_out_le,
+       c08_out_nonempty,
        c08_split_total, c08_ap_total (no fuel exhaustion = the loops stop),
        c08_pts_total (PTSEqualsDTS: no out-of-range access, terminates)
 
@@ -16,7 +17,7 @@ open Rtsp.Rtp Rtsp.Codec.H26x Rtsp.Facts
 /-! ## C08 — hostile packets: invariant, bounded retention, bounded output -/
 
 theorem c08_inv_init (P : Nat) : Inv P {} :=
-  ⟨⟨rfl, by simp, fun _ => rfl⟩, ⟨rfl, rfl, by simp, by simp, by simp⟩⟩
+  ⟨⟨rfl, by simp, fun _ => rfl, by simp⟩, ⟨rfl, rfl, by simp, by simp, by simp⟩⟩
 
 /-- **C08**: the invariant is preserved by `Decode` on EVERY packet. -/
 theorem c08_inv_decode (P : Nat) (d : Dec) (p : Pkt) (hi : Inv P d) (hp : p.payload.length ≤ P) :
@@ -38,6 +39,34 @@ theorem c08_retained_le (P : Nat) (d : Dec) (hi : Inv P d) : retained d ≤ 2 * 
   rw [← hi.1.1, ← hi.2.2]
   have := hi.1.2
   have := hi.2.4
+  omega
+
+/-- **C08 bounded memory, number of slices**: the decoder never holds more byte slices than bytes
+plus one (every stored fragment but the first data fragment, and every buffered NALU, is
+non-empty), so the slice headers and the packet buffers they pin are bounded as well.  False before
+/repo commit fc590d9 (continuation fragments without data were stored without limit). -/
+theorem c08_fragment_count_le (P : Nat) (d : Dec) (hi : Inv P d) :
+    d.fragments.length + d.frameBuffer.length ≤ retained d + 1 ∧
+    d.fragments.length ≤ maxAU + P + 1 ∧ d.frameBuffer.length ≤ maxNALUs := by
+  have h1 := hi.1.1
+  have h2 := hi.1.2
+  have h4 := hi.1.4
+  have hb : d.frameBuffer.length ≤ totalLen d.frameBuffer := by
+    have := hi.2.5
+    generalize d.frameBuffer = fb at this
+    induction fb with
+    | nil => simp
+    | cons x xs ih =>
+      have hx : x ≠ [] := this x (by simp)
+      have hpos : 0 < x.length := by
+        cases x with
+        | nil => exact absurd rfl hx
+        | cons a t => simp
+      have := ih (fun n hn => this n (by simp [hn]))
+      simp only [List.length_cons, totalLen, List.map_cons, List.sum_cons] at this ⊢
+      omega
+  refine ⟨?_, by omega, by rw [← hi.2.1]; exact hi.2.3⟩
+  unfold retained
   omega
 
 /-- **C08 output bound**: at most MaxNALUsPerAccessUnit NALUs and MaxAccessUnitSize bytes. -/
@@ -132,7 +161,7 @@ theorem c08_pts_total (payload : Bytes) : ptsEqualsDtsC payload = some (ptsEqual
 example : Inv 1500 { fragments := [[0x26, 1], [1, 2, 3]], fragmentsSize := 5, fragmentNextSeqNum := 77,
                      frameBuffer := [[0x40, 1], [0x42, 1, 2]], frameBufferLen := 2, frameBufferSize := 5,
                      firstPacketReceived := true } :=
-  ⟨⟨by decide, by decide, by decide⟩, ⟨by decide, by decide, by decide, by decide, by decide⟩⟩
+  ⟨⟨by decide, by decide, by decide, by decide⟩, ⟨by decide, by decide, by decide, by decide, by decide⟩⟩
 
 example : ptsEqualsDts [0x60, 0x01, 0x00, 0x02, 0x02, 0x01, 0x00, 0x02, 0x42, 0x01] = true := by decide
 example : ptsEqualsDtsC [0x60, 0x01, 0x00, 0x05, 0x02] = some false := by decide
